@@ -134,7 +134,7 @@ static void run_detector(Json& js, vh::Rng& rng, long budget, bool all_offsets) 
         // about (pi Lp)^(-1/4) (chirp) / 2.5 Lp^(-1/2) (PN); thresholds below max(0.5, 6/sqrt(Lp)) are not generated.
         const double tmin = std::max(0.5, 6.0 / std::sqrt((double)Lp));
         const double thr = tmin + (0.9 - tmin) * rng.unif();
-        const double amp = std::pow(10.0, -1.5 + 3 * rng.unif());   // amplitudes over 60 dB
+        const double amp = std::pow(10.0, -3.5 + 5 * rng.unif());   // amplitudes over 100 dB (3e-4 .. 30): score and decision are level-free
         const double nlev = amp * std::pow(10.0, -(20 + 20 * rng.unif()) / 20.0);   // background noise 20..40 dB below the preamble
         PreambleDetector probe(h, thr);
         const int F = probe.frame_len();
